@@ -51,6 +51,9 @@ fn val_strategy(dyadic: bool) -> BoxedStrategy<f32> {
             4 => (-40i32..=40).prop_map(|i| i as f32 / 4.0),
             1 => Just(0.0f32),
             1 => select(vec![1.0f32, -1.0, 2.5, -2.5, 1024.0, -1024.0]),
+            // exactly representable, but 2^24 + 1 is not: a sum accumulated in single precision
+            // (instead of being rounded once) loses the small addend of a cancelling triple
+            1 => select(vec![16777216.0f32, -16777216.0, 33554432.0, -33554432.0]),
         ]
         .boxed()
     } else {
